@@ -41,10 +41,12 @@ TRICKY = [
     {"note": "the END", "END": 1, "SIZE": "SIZE = 3"},
     {"q": "it's \"quoted\"", "nl": "line1\nEND\nline2", "b": b"by\x00tes", "none": None, "t": (1, 2.5, [True, {"k": "v"}])},
     {"percent": "100% of %s and %d", "long": "x" * 200, "f": -0.0, "big": 2 ** 70},
+    {"observer": "Ångström, José", "\u03b1": [1, "\u03b2\u03b3"], "note": "d\u00e9c \u2264 90\u00b0"},
 ]
 DESCRS = [
     [("END", "<i4"), ("SIZE", ">f8"), ("x_END_y", "S5")],
     [("a", "<u1"), ("b", ">i2", (2,)), ("c", "<c16"), ("d", "?"), ("e", "<f4", (2, 3))],
+    [("p", ">i4"), ("q", ">f8"), ("r", ">u2", (2,))],
 ]
 
 
